@@ -139,3 +139,85 @@ pub fn combine_t(acc: Acc, a: &Tensor, others: &[Tensor]) -> Tensor {
     let o: Vec<V1> = others.iter().map(elems).collect();
     rewrap(a, &acc.combine(&elems(a), &o))
 }
+
+// ------------------------------------------------------------------------------------------------
+// cutting a training run at every optimizer call
+
+#[derive(Clone)]
+pub struct UpdateCall {
+    pub layer: usize,
+    pub filter: usize,
+    pub bias: bool,
+    pub stepnr: i32,
+    pub before: Tensor,
+    pub grads: Tensor,
+    pub after: Tensor,
+}
+
+pub type UpdateLog = std::rc::Rc<std::cell::RefCell<Vec<UpdateCall>>>;
+
+/// Replace `Optimizer::update` by "record the arguments, then overwrite the parameter tensor with fresh
+/// variables `U<call>_<i>`" (sound: fresh variables over-approximate every reachable weight value).
+pub fn install_havoc_stub() -> UpdateLog {
+    let log: UpdateLog = std::rc::Rc::new(std::cell::RefCell::new(Vec::new()));
+    let l2 = log.clone();
+    hooks::set_update_stub(Some(Box::new(move |layer, filter, bias, stepnr, values: &mut Tensor, grads: &mut Tensor| {
+        let n = l2.borrow().len();
+        let before = values.clone();
+        let vals: V1 = (0..elems(values).len()).map(|i| fresh(&format!("U{}_{}", n, i))).collect();
+        *values = rewrap_any(values, &vals);
+        l2.borrow_mut().push(UpdateCall { layer, filter, bias, stepnr, before, grads: grads.clone(), after: values.clone() });
+    })));
+    log
+}
+
+pub fn remove_stubs() {
+    hooks::set_update_stub(None);
+    hooks::set_validate_stub(None);
+}
+
+pub fn rewrap_any(like: &Tensor, vals: &[S]) -> Tensor {
+    match &like.data {
+        Data::Quadruple(d) => {
+            let (c, h, w) = (d[0].len(), d[0][0].len(), d[0][0][0].len());
+            Tensor::quadruple(vals.chunks(c * h * w).map(|f| f.chunks(h * w).map(|m| m.chunks(w).map(|r| r.to_vec()).collect()).collect()).collect())
+        }
+        _ => rewrap(like, vals),
+    }
+}
+
+/// the same specification with every dropout removed
+pub fn without_dropout(layers: &[L]) -> Vec<L> {
+    layers
+        .iter()
+        .map(|l| match l {
+            L::DenseDrop(n, a, b, _) => L::Dense(*n, *a, *b),
+            L::ConvDrop(f, k, s, p, d, a, _) => L::Conv(*f, *k, *s, *p, *d, *a),
+            L::DeconvDrop(f, k, s, p, a, _) => L::Deconv(*f, *k, *s, *p, *a),
+            L::Feedback(ls, loops, i, o, acc) => L::Feedback(without_dropout(ls), *loops, *i, *o, *acc),
+            other => other.clone(),
+        })
+        .collect()
+}
+
+/// copy every parameter (recursively through feedback blocks) from one network into another of the same architecture
+pub fn copy_params(from: &Network, to: &mut Network) {
+    for (a, b) in from.layers.iter().zip(to.layers.iter_mut()) {
+        copy_layer(a, b);
+    }
+}
+fn copy_layer(a: &Layer, b: &mut Layer) {
+    match (a, b) {
+        (Layer::Feedback(fa), Layer::Feedback(fb)) => {
+            for (x, y) in fa.layers.iter().zip(fb.layers.iter_mut()) {
+                copy_layer(x, y);
+            }
+        }
+        (a, b) => {
+            let (w, bias) = hooks::params(a);
+            if !w.is_empty() {
+                hooks::set_params(b, w, bias);
+            }
+        }
+    }
+}
